@@ -112,7 +112,7 @@ Proof.
   pose proof (Hs j E) as Hin. rewrite (Hc j Hin) in E. discriminate.
 Qed.
 Lemma reg_enabled_small : forall hp b, bit b 63 = false -> reg_enabled hp b = true.
-Proof. intros [] b H; simpl; auto. apply bits_not_max. auto. Qed.
+Proof. intros [] b H; unfold reg_enabled; [apply bits_not_max; exact H | reflexivity]. Qed.
 
 Lemma visible_0 : forall st id, visible st 0 id = true <-> alive st id.
 Proof.
